@@ -322,6 +322,9 @@ func runC14(c *eng.Ctx, tier string) {
 	kvPairing(c, "R-C14-5")
 	// "two puts of different values never receive the same version": C02's numbering rules
 	includeOnly(c, "R-C14-5", func(sc *eng.Ctx) { runC02(sc, "quick") }, "R-C02-3")
+	// "consistent with ... the sequential specification": a conditional get
+	// answers not-modified exactly when the active version equals the caller's (C09's rule)
+	includeOnly(c, "R-C14-8", func(sc *eng.Ctx) { runC09(sc, "quick") }, "R-C09-1")
 
 	// R-C14-6 package-level memory of the request path (acl, db, audit,
 	// server) is written only in init or under an exclusive lock
